@@ -112,7 +112,10 @@ ApiIter(S, p, n) ==
   IF n = 0 THEN S
   ELSE S \cup ApiIter(UNION {IF r.room > 0 /\ r.inp = 1 THEN IntCall(r.st, r.tmp, r.room, r.inp, p) ELSE {} : r \in S}, p, n - 1)
 (* possible (st, tmp) at the return of one isal_deflate call *)
-CallEnds(st0, tmp0, room0, inp0, p) == {<<r.st, r.tmp>> : r \in ApiIter(IntCall(st0, tmp0, room0, inp0, p), p, 3)}
-CallResults(st0, tmp0, room0, inp0, p) == ApiIter(IntCall(st0, tmp0, room0, inp0, p), p, 3)
+(* isal_deflate's buffering layer: with NO_FLUSH and no end of stream a small amount of new input is only copied into the
+   internal buffer and isal_deflate_int is not entered at all *)
+BufferOnly(st0, tmp0, room0, inp0, p) == IF p.flush = 0 /\ ~p.eos /\ inp0 = 1 THEN {R(st0, tmp0, room0, 1)} ELSE {}
+CallResults(st0, tmp0, room0, inp0, p) == ApiIter(IntCall(st0, tmp0, room0, inp0, p), p, 3) \cup BufferOnly(st0, tmp0, room0, inp0, p)
+CallEnds(st0, tmp0, room0, inp0, p) == {<<r.st, r.tmp>> : r \in CallResults(st0, tmp0, room0, inp0, p)}
 
 =============================================================================
